@@ -1,7 +1,7 @@
 """C14 - TL serialisation inverts TL parsing and follows TL framing for the bundled schemas; block-id helpers are lossless and hashable."""
 from lib import mon, tlref
 
-SHARDS = 8
+SHARDS = 16
 SHARD_TIMEOUT = 3600
 
 
@@ -240,7 +240,7 @@ def run(R):
     # ---- codec
     G = Gen(codec, rng, known)
     G.untouchable = {(n, f) for n, fs in lib_auto.untouchables.items() for f in fs}
-    per = 14 if quick else 80
+    per = 14 if quick else 500
     mine = [n for i, n in enumerate(supported) if i % R.nshards == R.shard]
     for name in mine:
         ctor = ctors[name]
@@ -314,7 +314,7 @@ def run(R):
     R.extra['generator_stats'] = G.stats
 
     # ---- block id helpers
-    for i in range(50 if quick else 2000):
+    for i in range(50 if quick else 20000):
         wc = rng.choice([0, -1, 2 ** 31 - 1, -2 ** 31, rng.randrange(-100, 100)])
         shard = rng.choice([-2 ** 63, 2 ** 63 - 1, 0, -1, rng.randrange(-2 ** 63, 2 ** 63)])
         seqno = rng.choice([0, 1, 2 ** 31 - 1, rng.getrandbits(31)])
